@@ -12,6 +12,7 @@ import (
 	"net"
 	"net/http"
 	"net/http/httptest"
+	"os"
 	"sort"
 	"strconv"
 	"strings"
@@ -49,6 +50,30 @@ var quiet = func() *logrus.Logger { l := logrus.New(); l.SetOutput(io.Discard); 
 func fixedCtx() (context.Context, context.CancelFunc) {
 	ctx, cancel := context.WithCancel(context.Background())
 	return clock.Context(ctx, clock.NewMock(time.Unix(nowUnix, 0))), cancel
+}
+
+// baseViper is the documented configuration layout every backend is built from through its
+// real NewClientFromViper: the top-level flush interval and the top-level [disabled-sub-metrics]
+// section carrying the case's mask; each backend adds its own section.
+func baseViper(in *input) *viper.Viper {
+	v := viper.New()
+	v.Set("flush-interval", flushInterval)
+	dis := map[string]interface{}{}
+	for i, k := range []string{"lower", "upper", "count", "count-per-second", "mean", "median", "stddev", "sum", "sum-squares"} {
+		dis[k] = in.Mask[i]
+	}
+	v.Set("disabled-sub-metrics", dis)
+	return v
+}
+
+func init() {
+	// cloudwatch.NewClient loads the default AWS configuration: no CA bundle, no metadata service,
+	// a region and dummy credentials (nothing is sent: the API client is replaced by a fake)
+	os.Setenv("AWS_CA_BUNDLE", "")
+	os.Setenv("AWS_EC2_METADATA_DISABLED", "true")
+	os.Setenv("AWS_REGION", "us-east-1")
+	os.Setenv("AWS_ACCESS_KEY_ID", "verif")
+	os.Setenv("AWS_SECRET_ACCESS_KEY", "verif")
 }
 
 // result of one backend run
@@ -305,7 +330,10 @@ func runDatadog(in *input, cfg BackendCfg) bres {
 	srv, p := httpEnv()
 	srv.take()
 	cli, err := client("datadog", func() (gostatsd.Backend, error) {
-		return datadog.NewClient(srv.srv.URL, "key", "agent", "default", cfg.Batch, maxReq(8), cfg.Compress, 5*time.Second, flushInterval, in.subtypes(), quiet, p)
+		v := baseViper(in)
+		v.Set("datadog", map[string]interface{}{"api_endpoint": srv.srv.URL, "api_key": "key", "metrics_per_batch": cfg.Batch,
+			"max_requests": int(maxReq(8)), "compress_payload": cfg.Compress, "max_request_elapsed_time": "5s"})
+		return datadog.NewClientFromViper(v, quiet, p)
 	})
 	if err != nil {
 		r.monitors = append(r.monitors, "datadog.NewClient: "+err.Error())
@@ -381,7 +409,7 @@ func runInflux(in *input, cfg BackendCfg) bres {
 	var r bres
 	srv, p := httpEnv()
 	srv.take()
-	v := viper.New()
+	v := baseViper(in)
 	v.Set("influxdb.api-endpoint", srv.srv.URL)
 	v.Set("influxdb.api-version", 2)
 	v.Set("influxdb.bucket", "b")
@@ -389,11 +417,6 @@ func runInflux(in *input, cfg BackendCfg) bres {
 	v.Set("influxdb.compress-payload", cfg.Compress)
 	v.Set("influxdb.metrics-per-batch", cfg.Batch)
 	v.Set("influxdb.max-requests", map[bool]int{false: 64, true: 2}[seq.active])
-	v.Set("flush-interval", flushInterval)
-	m := in.Mask
-	for i, k := range []string{"lower", "upper", "count", "count-per-second", "mean", "median", "stddev", "sum", "sum-squares"} {
-		v.Set("disabled-sub-metrics."+k, m[i])
-	}
 	b, err := client("influxdb", func() (gostatsd.Backend, error) { return influxdb.NewClientFromViper(v, quiet, p) })
 	if err != nil {
 		r.monitors = append(r.monitors, "influxdb.NewClientFromViper: "+err.Error())
@@ -487,7 +510,7 @@ func runOTLP(in *input, cfg BackendCfg) bres {
 	var r bres
 	srv, p := httpEnv()
 	srv.take()
-	v := viper.New()
+	v := baseViper(in)
 	v.Set("otlp.metrics_endpoint", srv.srv.URL+"/v1/metrics")
 	v.Set("otlp.logs_endpoint", srv.srv.URL+"/v1/logs")
 	v.Set("otlp.compress_payload", cfg.Compress)
@@ -594,7 +617,16 @@ func (f *fakeCW) PutMetricData(ctx context.Context, in *awscw.PutMetricDataInput
 func runCloudwatch(in *input, cfg BackendCfg) bres {
 	var r bres
 	api := &fakeCW{}
-	cli := cloudwatch.VerifNewClientC17(api, "NS", in.subtypes(), quiet)
+	_, p := httpEnv()
+	v := baseViper(in)
+	v.Set("cloudwatch", map[string]interface{}{"namespace": "NS"})
+	cb, err := cloudwatch.NewClientFromViper(v, quiet, p)
+	if err != nil {
+		r.monitors = append(r.monitors, "cloudwatch.NewClientFromViper: "+err.Error())
+		return r
+	}
+	cli := cb.(*cloudwatch.Client)
+	cloudwatch.VerifSetAPIC17(cli, api)
 	ctx, cancel := fixedCtx()
 	defer cancel()
 	errs, bad := send(ctx, cli, in.buildMap())
@@ -767,8 +799,7 @@ func runGraphite(in *input, cfg BackendCfg) bres {
 	var r bres
 	tc := newTCPCapture()
 	t0 := time.Now().Unix()
-	cli, err := graphite.NewClient(tc.ln.Addr().String(), time.Second, 5*time.Second, graphite.DefaultGlobalPrefix, graphite.DefaultPrefixCounter,
-		graphite.DefaultPrefixTimer, graphite.DefaultPrefixGauge, graphite.DefaultPrefixSet, cfg.Suffix, cfg.Mode, in.subtypes(), quiet)
+	cli, err := newGraphite(in, cfg, tc.ln.Addr().String())
 	if err != nil {
 		r.monitors = append(r.monitors, "graphite.NewClient: "+err.Error())
 		return r
@@ -778,6 +809,12 @@ func runGraphite(in *input, cfg BackendCfg) bres {
 	data := string(tc.finish())
 	decGraphite(in, cfg, data, t0, t1, &r)
 	return r
+}
+
+func newGraphite(in *input, cfg BackendCfg, addr string) (gostatsd.Backend, error) {
+	v := baseViper(in)
+	v.Set("graphite", map[string]interface{}{"address": addr, "mode": cfg.Mode, "global_suffix": cfg.Suffix, "dial_timeout": "1s", "write_timeout": "5s"})
+	return graphite.NewClientFromViper(v, quiet, nil)
 }
 
 // decGraphite checks and records the lines one flush put on the TCP stream.
@@ -818,7 +855,12 @@ func runStdout(in *input, cfg BackendCfg) bres {
 	var r bres
 	t0 := time.Now().Unix()
 	var data []byte
-	if msg := hlib.Recover(func() { data = stdout.VerifPreparePayloadC17(in.buildMap(), in.subtypes()) }); msg != "" {
+	sb, err := stdout.NewClientFromViper(baseViper(in), quiet, nil)
+	if err != nil {
+		r.monitors = append(r.monitors, "stdout.NewClientFromViper: "+err.Error())
+		return r
+	}
+	if msg := hlib.Recover(func() { data = sb.(*stdout.Client).VerifPayloadC17(in.buildMap()) }); msg != "" {
 		r.monitors = append(r.monitors, "stdout: preparePayload panicked: "+msg)
 	}
 	t1 := time.Now().Unix()
@@ -960,9 +1002,9 @@ func runRelay(in *input, cfg BackendCfg) bres {
 		uc = newUDPCapture()
 		addr = uc.conn.LocalAddr().String()
 	}
-	cli, err := statsdaemon.NewClient(addr, time.Second, 5*time.Second, cfg.DT, cfg.TCP, nil, quiet)
+	cli, err := newRelay(in, addr, cfg.DT, cfg.TCP)
 	if err != nil {
-		r.monitors = append(r.monitors, "statsdaemon.NewClient: "+err.Error())
+		r.monitors = append(r.monitors, "statsdaemon.NewClientFromViper: "+err.Error())
 		return r
 	}
 	if !cfg.TCP {
@@ -982,6 +1024,16 @@ func runRelay(in *input, cfg BackendCfg) bres {
 	}
 	decRelay(in, cfg, ps, dgrams, &r)
 	return r
+}
+
+func newRelay(in *input, addr string, dt, tcp bool) (*statsdaemon.Client, error) {
+	v := baseViper(in)
+	v.Set("statsdaemon", map[string]interface{}{"address": addr, "disable_tags": dt, "tcp_transport": tcp, "dial_timeout": "1s", "write_timeout": "5s"})
+	b, err := statsdaemon.NewClientFromViper(v, quiet, nil)
+	if err != nil {
+		return nil, err
+	}
+	return b.(*statsdaemon.Client), nil
 }
 
 // decRelay checks and records the datagrams of one flush.
@@ -1039,9 +1091,9 @@ func runRelayEvent(in *input) bres {
 	src := &gostatsd.Event{Title: ev.Title, Text: ev.Text, DateHappened: ev.Date, Source: gostatsd.Source(ev.Host), AggregationKey: ev.Key,
 		Priority: gostatsd.Priority(ev.Pri), SourceTypeName: ev.SType, AlertType: gostatsd.AlertType(ev.Alert), Tags: append(gostatsd.Tags(nil), ev.Tags...)}
 	uc := newUDPCapture()
-	cli, err := statsdaemon.NewClient(uc.conn.LocalAddr().String(), time.Second, 5*time.Second, false, false, nil, quiet)
+	cli, err := newRelay(in, uc.conn.LocalAddr().String(), false, false)
 	if err != nil {
-		r.monitors = append(r.monitors, "statsdaemon.NewClient: "+err.Error())
+		r.monitors = append(r.monitors, "statsdaemon.NewClientFromViper: "+err.Error())
 		return r
 	}
 	if err := cli.SendEvent(context.Background(), src); err != nil {
